@@ -93,23 +93,64 @@ def run(ctx: Ctx):
         ok = ok and cv is not None and norm(cv) == tv.params[0]
     ctx.check(ok, "MP-one-assign", tv, "values converted element-wise, in order", "Tuple(elts=map(to_val, w)) / Constant(value=w)", "nested parameter values are not converted element by element in their original order", tv.node)
 
+    ctx.section(check_edit, ctx, fi, tree, lst)
+    ctx.section(check_modmask, ctx)
+
+
+def check_modmask(ctx: Ctx):
+    """exact, over the modules this property is anchored in"""
+    n = 0
+    for fi in ctx.repo.functions.values():
+        if fi.parent is not None or not any(fi.module.name.startswith(x) for x in ['qlasskit.qlassfun', 'qlasskit.types.parameter']):
+            continue
+        for site in q.modulo_by_mask_sites(fi.node):
+            n += 1
+            ctx.fail("SB-MODMASK", fi, f"`{norm(site)[:50]}`", f"`{norm(site)}` reduces a value with the all-ones mask as MODULUS: the largest value of that width ((1 << n) - 1) becomes 0; the modulus for n bits is 2**n (or use `& mask`)", site)
+    ctx.ok("SB-MODMASK", None, "no value is reduced modulo an all-ones mask", f"{n} sites", construct="qlassfun")
+
+
+def _expand_aliases(fi, tree: str):
+    """single-binding local names that stand for a part of the edited tree (`fun_def = fun_ast.body[0]`)"""
+    import re
+
+    al = {}
+    for n in walk_no_nested(fi.node):
+        if isinstance(n, ast.Assign) and len(n.targets) == 1 and isinstance(n.targets[0], ast.Name):
+            al.setdefault(n.targets[0].id, []).append(n.value)
+    al = {k: norm(v[0]) for k, v in al.items() if len(v) == 1 and isinstance(v[0], (ast.Attribute, ast.Subscript)) and (norm(v[0]).startswith(tree + ".") or norm(v[0]).startswith(tree + "["))}
+
+    def ex(e) -> str:
+        t = norm(e)
+        for k, v in al.items():
+            t = re.sub(rf"(?<![\w.]){re.escape(k)}(?!\w)", v, t)
+        return t
+
+    return ex
+
+
+def check_edit(ctx: Ctx, fi, tree: str, lst):
+    ex = _expand_aliases(fi, tree)
     # prepend
-    st = [n for n in walk_no_nested(fi.node) if isinstance(n, ast.Assign) and norm(n.targets[0]).endswith(".body") and norm(n.targets[0]).startswith(tree) and norm(n.targets[0]) != f"{tree}.body"]
+    st = [n for n in walk_no_nested(fi.node) if isinstance(n, ast.Assign) and ex(n.targets[0]).endswith(".body") and ex(n.targets[0]).startswith(tree) and ex(n.targets[0]) != f"{tree}.body"]
     ok = False
-    why = "no assignment to the function body of the copy"
+    why = ""
+    if not st:
+        raise AnchorError(BIND, f"no assignment to the function body of the tree `{tree}` handed to the translation: the edit is made in a form outside the tables")
     if len(st) == 1 and isinstance(st[0].value, ast.BinOp) and isinstance(st[0].value.op, ast.Add):
-        ok = lst is not None and norm(st[0].value.left) == lst and norm(st[0].value.right) == norm(st[0].targets[0])
+        ok = lst is not None and norm(st[0].value.left) == lst and ex(st[0].value.right) == ex(st[0].targets[0])
         why = f"`{norm(st[0])}`: the injected assignments must come first, followed by the whole original body"
     ctx.check(ok, "MP-prepend", fi, "injected assignments are prepended", "body = new_body + body", why, st[0] if st else fi.node)
     # removal of the parameters
-    rm = [n for n in walk_no_nested(fi.node) if isinstance(n, ast.Assign) and norm(n.targets[0]).endswith(".args.args") and norm(n.targets[0]).startswith(tree)]
+    rm = [n for n in walk_no_nested(fi.node) if isinstance(n, ast.Assign) and ex(n.targets[0]).endswith(".args.args") and ex(n.targets[0]).startswith(tree)]
     ok = False
-    why = "no assignment to the argument list of the copy"
+    why = ""
+    if not rm:
+        raise AnchorError(BIND, f"no assignment to the argument list of the tree `{tree}` handed to the translation: the edit is made in a form outside the tables")
     pred = None
     if len(rm) == 1 and isinstance(rm[0].value, ast.ListComp):
         lc = rm[0].value
         g = lc.generators[0]
-        ok = norm(lc.elt) == norm(g.target) and norm(g.iter) == norm(rm[0].targets[0]) and len(g.ifs) == 1 and isinstance(g.ifs[0], ast.UnaryOp) and isinstance(g.ifs[0].op, ast.Not) and isinstance(g.ifs[0].operand, ast.Call)
+        ok = norm(lc.elt) == norm(g.target) and ex(g.iter) == ex(rm[0].targets[0]) and len(g.ifs) == 1 and isinstance(g.ifs[0], ast.UnaryOp) and isinstance(g.ifs[0].op, ast.Not) and isinstance(g.ifs[0].operand, ast.Call)
         if ok:
             pred = dotted(g.ifs[0].operand.func)
             ok = norm(g.ifs[0].operand.args[0]) == f"{norm(g.target)}.annotation"
@@ -134,16 +175,3 @@ def run(ctx: Ctx):
     # the detected name is stored as key of self.parameters
     st = [n for n in ast.walk(det[0]) if isinstance(n, ast.Assign) and isinstance(n.targets[0], ast.Subscript)]
     ctx.check(len(st) == 1 and norm(st[0].targets[0].slice).endswith(".arg"), "SB-TWIN", ff, "parameters are recorded under the argument's name", norm(st[0])[:60] if st else "", "the parameter table is not keyed by argument name", det[0])
-    ctx.section(check_modmask, ctx)
-
-
-def check_modmask(ctx: Ctx):
-    """exact, over the modules this property is anchored in"""
-    n = 0
-    for fi in ctx.repo.functions.values():
-        if fi.parent is not None or not any(fi.module.name.startswith(x) for x in ['qlasskit.qlassfun', 'qlasskit.types.parameter']):
-            continue
-        for site in q.modulo_by_mask_sites(fi.node):
-            n += 1
-            ctx.fail("SB-MODMASK", fi, f"`{norm(site)[:50]}`", f"`{norm(site)}` reduces a value with the all-ones mask as MODULUS: the largest value of that width ((1 << n) - 1) becomes 0; the modulus for n bits is 2**n (or use `& mask`)", site)
-    ctx.ok("SB-MODMASK", None, "no value is reduced modulo an all-ones mask", f"{n} sites", construct="qlassfun")
